@@ -343,6 +343,11 @@ func (f *FnVC) applyContract(st *State, ct *spec.FuncContract, fn *ssa.Function,
 	}
 	// preconditions
 	for i, r := range ct.Requires {
+		if f.Ct != nil && f.Ct.Swept && (strings.Contains(r.Text, "rwf(") || strings.Contains(r.Text, ".@")) {
+			// swept functions carry only the panic-value and allocation obligations: callee preconditions about the ghost
+			// stream model (reader well-formedness) are assumed there; preconditions over real values are still checked
+			continue
+		}
 		v, err := f.evalSpec(env, r.Expr, types.Typ[types.Bool])
 		if err != nil {
 			f.E.specError(r, err)
